@@ -183,7 +183,11 @@ pub trait NamingContext {
             "with",
             "yield",
         ];
-        if RESERVED_WORDS.contains(&function_name.as_str()) {
+        // commands.ts itself binds these two names (`import { invoke }`, `import * as types`)
+        const MODULE_BINDINGS: &[&str] = &["invoke", "types"];
+        if RESERVED_WORDS.contains(&function_name.as_str())
+            || MODULE_BINDINGS.contains(&function_name.as_str())
+        {
             format!("{}_", function_name)
         } else {
             function_name
